@@ -33,7 +33,7 @@ def main():
         if r.returncode != 0:
             r3 = sh("git -C /repo apply -3 %s/%s" % (d, patch))
             if r3.returncode != 0:
-                sh("git -C /repo reset -q --hard HEAD")
+                sh("git -C /repo checkout -q -- . ; git -C /repo reset -q")
                 results[n] = {"property": pid, "applies": False, "note": r.stdout.strip()[:300]}
                 print(n, "patch does not apply to the current tree")
                 continue
@@ -54,7 +54,8 @@ def main():
             results[n] = {"property": pid, "applies": True, "detected": detected, "checks": out}
             print(n, "DETECTED" if detected else "missed", {k: v.get("exit") for k, v in out.items()})
         finally:
-            sh("git -C /repo reset -q --hard HEAD")
+            # /repo was clean at the start (checked above): restoring tracked files undoes the patch
+            sh("git -C /repo reset -q ; git -C /repo checkout -q -- .")
     json.dump(results, open(res_path, "w"), indent=1)
     return 0
 
